@@ -149,6 +149,17 @@ class Builtins:
     # ------------------------------------------------------------------ value attributes
     def value_attr(self, o, attr):
         I = self.I
+        if attr == "__class__" and (o is None or isinstance(o, (bool, int, float, str, SNum, SName, SStr, list, tuple, SDict, SSet))):
+            if o is None:
+                return ClassRef(BuiltinClass("NoneType"))
+            if isinstance(o, SNum):
+                p = o.pyint
+                if isinstance(p, bool):
+                    return ClassRef(BuiltinClass("int" if p else "float"))
+                return ClassRef(BuiltinClass("int" if self.path.branch(p, "num-is-int") else "float"))
+            nm = {bool: "bool", int: "int", float: "float", str: "str", SName: "str", SStr: "str", list: "list",
+                  tuple: "tuple", SDict: "dict", SSet: "set"}[type(o)]
+            return ClassRef(BuiltinClass(nm))
         if isinstance(o, list) and not isinstance(o, GeneratorList):
             if attr == "append":
                 def app(a, k):
@@ -403,6 +414,14 @@ class Builtins:
         ta, tb = tag(a), tag(b)
         if ta is None or tb is None:
             return False
+        # comparing the class of an unknown-class object with a concrete class: fork, and
+        # on equality the object's structure becomes available (refinement)
+        for s_, c_ in ((a, b), (b, a)):
+            if isinstance(s_, SymClass) and isinstance(c_, ClassRef) and s_.obj.cls is None and s_.obj.kind == "child":
+                if self.path.branch(s_.obj.ghost["tag"] == sym.CLS[c_.cls.name], f"class-eq({s_.obj.name},{c_.cls.name})"):
+                    self.I.contracts.refine(self.I, s_.obj, c_.cls)
+                    return True
+                return False
         return ta == tb
 
     def dict_equals(self, a, b):
@@ -567,7 +586,8 @@ class Builtins:
         for e in elts:
             kt = self.key_term(e)
             if kt is None or kt.sort() != sym.Name:
-                raise Unsupported(f"set element {e!r}")
+                # a hashable non-string element (ill-typed variable name): opaque element
+                kt = self.path.fresh("nonname-element", sym.Name)
             t = z3.Store(t, kt, z3.BoolVal(True))
         return SSet(t)
 
